@@ -540,6 +540,9 @@ func (env *SpecEnv) constVal(o *types.Const) SpecVal {
 
 func (env *SpecEnv) ident(name string) SpecVal {
 	fx := env.fx
+	if v, ok := env.vars[name]; ok && strings.HasPrefix(v.T.S, "q$") {
+		return v // a bound (quantified) variable shadows everything
+	}
 	if v, ok := env.vars[name]; ok && !(env.locals && !env.inOld && env.isLocalName(name)) {
 		return v
 	}
@@ -672,6 +675,24 @@ func (env *SpecEnv) resolveType(s string) (types.Type, string) {
 	case "BSeq":
 		env.fx.declBytes()
 		return nil, "BSeq"
+	}
+	if strings.HasPrefix(s, "[") && !strings.HasPrefix(s, "[]") {
+		// mathematical map [K]V (an SMT array)
+		depth := 0
+		for i, c := range s {
+			if c == '[' {
+				depth++
+			}
+			if c == ']' {
+				depth--
+				if depth == 0 {
+					_, ks := env.resolveType(s[1:i])
+					_, vs := env.resolveType(s[i+1:])
+					return nil, ArraySort(ks, vs)
+				}
+			}
+		}
+		specFail("bad map type %q", s)
 	}
 	t := env.goType(s)
 	return t, env.fx.tc.SortOf(t)
@@ -837,6 +858,13 @@ func (env *SpecEnv) call(x SCall) SpecVal {
 		v := argv(0)
 		registerHeapKey("BigVal", ArraySort(SInt, SInt))
 		return SpecVal{T: Select(fx.Heap(env.state(), "BigVal"), v.T)}
+	case "store":
+		// store(m, k, v): the mathematical map m with key k bound to v
+		m, k, v := argv(0), argv(1), argv(2)
+		if !strings.HasPrefix(m.T.Sort, "(Array ") {
+			specFail("store() on a non-map value")
+		}
+		return SpecVal{T: Store(m.T, k.T, v.T)}
 	case "fresh":
 		// fresh(x): the object x refers to was allocated after the old() state
 		v := argv(0)
@@ -849,6 +877,10 @@ func (env *SpecEnv) call(x SCall) SpecVal {
 			ref = App("if.val", SInt, v.T)
 		case SSlice:
 			ref = App("sl.base", SInt, v.T)
+		}
+		if env.st != nil && env.st.nextRef.S != "" && env.st != env.old {
+			// allocated during the call: at or above the old allocation frontier, below the new one
+			return SpecVal{T: And(App(">=", SBool, ref, env.old.nextRef), App("<", SBool, ref, env.st.nextRef))}
 		}
 		return SpecVal{T: App(">=", SBool, ref, env.old.nextRef)}
 	case "wrap64":
@@ -864,6 +896,18 @@ func (env *SpecEnv) call(x SCall) SpecVal {
 
 func (env *SpecEnv) callSpecFunc(sf *SpecFunc, x SCall) SpecVal {
 	fx := env.fx
+	if sf.Ghost && len(x.Args) == 0 {
+		// the whole ghost map
+		genv := &SpecEnv{fx: fx, st: env.state(), old: env.old, vars: map[string]SpecVal{}, pkg: env.pkg}
+		if sf.Pkg != "" {
+			if p := fx.g.typesPkg(sf.Pkg); p != nil {
+				genv.pkg = p
+			}
+		}
+		_, ks := genv.resolveType(sf.Params[0].Type)
+		_, vs := genv.resolveType(sf.Ret)
+		return SpecVal{T: fx.Heap(env.state(), ghostKey(sf, ks, vs))}
+	}
 	if len(x.Args) != len(sf.Params) {
 		specFail("%s expects %d arguments", sf.Name, len(sf.Params))
 	}
@@ -902,7 +946,13 @@ func (env *SpecEnv) callSpecFunc(sf *SpecFunc, x SCall) SpecVal {
 	}
 	if sf.Ghost {
 		key := ghostKey(sf, psorts[0], retSort)
-		return SpecVal{T: Select(fx.Heap(env.state(), key), args[0].T), Ty: retTy}
+		v := Select(fx.Heap(env.state(), key), args[0].T)
+		if retTy != nil && !strings.Contains(v.S, "q$") {
+			// a ghost field declared with a Go type holds values of that type (its only writers are
+			// the assumed accessor contracts, which copy typed program values into it)
+			fx.sc.Assume(fx.tc.WellTyped(v, retTy, 1))
+		}
+		return SpecVal{T: v, Ty: retTy}
 	}
 	if sf.Body == nil {
 		// uninterpreted
